@@ -112,6 +112,24 @@ func (c *Cluster) handleOffsetForLeaderEpoch(creq *clientReq) (kmsg.Response, er
 
 			// Requested epoch is not yet known: keep -1 returns.
 			if cur == nil {
+				// No batch was written in a later epoch. If the
+				// requested epoch is the epoch of the last batch,
+				// it is the latest epoch with data and it ends at
+				// the log end (the leader epoch can be ahead of it
+				// when leadership moved and nothing was produced
+				// since). Only an epoch beyond every batch is
+				// undefined.
+				var last *batchMeta
+				for i := len(pd.segments) - 1; i >= 0 && last == nil; i-- {
+					if idx := pd.segments[i].index; len(idx) > 0 {
+						last = &idx[len(idx)-1]
+					}
+				}
+				if last != nil && last.epoch == rp.LeaderEpoch {
+					sp.LeaderEpoch = rp.LeaderEpoch
+					sp.EndOffset = pd.highWatermark
+					continue
+				}
 				sp.LeaderEpoch = -1
 				sp.EndOffset = -1
 				continue
